@@ -285,6 +285,58 @@ func verifScale(t *testing.T, tier string) {
 			bad(fmt.Errorf("ClassOf(%q) = %v, want %v", u, got, want))
 		}
 	}
+	// the same rule on generated units: up to three tokens joined by every kind of
+	// separator ('/', '*', '-', and white space of any kind, which separates tokens
+	// without changing sides)
+	{
+		toks := []string{"B", "MB", "bytes", "sec", "x", "Bytes", "KB"}
+		seps := []string{"/", "*", "-", " ", "\t", "\n", "\u00a0", "\u2009", " / ", "*/", "/ *"}
+		side := func(sep string, denom bool) bool {
+			for _, r := range sep {
+				if r == '*' {
+					denom = false
+				} else if r == '/' {
+					denom = true
+				}
+			}
+			return denom
+		}
+		isByte := func(t string) bool { return t == "B" || t == "MB" || t == "bytes" }
+		for _, t1 := range toks {
+			for _, s1 := range seps {
+				for _, t2 := range toks {
+					for _, s2 := range append([]string{""}, seps...) {
+						for _, t3 := range toks {
+							if s2 == "" && t3 != toks[0] {
+								continue
+							}
+							u := t1 + s1 + t2
+							want := Decimal
+							d := false
+							if isByte(t1) {
+								want = Binary
+							}
+							d = side(s1, d)
+							if isByte(t2) && !d {
+								want = Binary
+							}
+							if s2 != "" {
+								u += s2 + t3
+								d = side(s2, d)
+								if isByte(t3) && !d {
+									want = Binary
+								}
+							}
+							n++
+							if got := ClassOf(u); got != want {
+								bad(fmt.Errorf("ClassOf(%q) = %v, want %v", u, got, want))
+							}
+						}
+					}
+				}
+			}
+		}
+	}
 	// the no-op scale prints the shortest decimal that reads back to the same float
 	for _, v := range []float64{0, 1, 0.1, 1.0 / 3, 1e21, 1e-7, 123456789.123, 5e-324, math.MaxFloat64, -2.5} {
 		n++
@@ -294,5 +346,5 @@ func verifScale(t *testing.T, tier string) {
 			bad(fmt.Errorf("NoOpScaler.Format(%v) = %q", v, out))
 		}
 	}
-	fmt.Printf("BOUNDED-RESULT {\"cases\": %d, \"failures\": %d, \"bound\": \"Scale at +-%d ulps around every threshold, factor and rounding boundary of both classes and every sub-prefix threshold (both signs), a log sweep 1e-17..1e15, named boundary cases, shared scales of mixed-sign sets, 21 unit class cases, the no-op scale on 10 values; exact decimal arithmetic for the half-unit bound\", \"exhaustive\": false}\n", n, fails, ulps)
+	fmt.Printf("BOUNDED-RESULT {\"cases\": %d, \"failures\": %d, \"bound\": \"Scale at +-%d ulps around every threshold, factor and rounding boundary of both classes and every sub-prefix threshold (both signs), a log sweep 1e-17..1e15, named boundary cases, shared scales of mixed-sign sets, 21 named and about 47 000 generated unit class cases (every separator incl. tab, newline, no-break and thin space), the no-op scale on 10 values; exact decimal arithmetic for the half-unit bound\", \"exhaustive\": false}\n", n, fails, ulps)
 }
